@@ -1,0 +1,13 @@
+//go:build verif
+
+package stage
+
+import "github.com/arm-doe/sts"
+
+// VerifDirs exposes the directories a Stage works in and its receive logger.
+func (s *Stage) VerifDirs() (rootDir, targetDir string, logger sts.ReceiveLogger) {
+	return s.rootDir, s.targetDir, s.logger
+}
+
+// VerifInPipe exposes inPipe (number of files between reception and delivery).
+func (s *Stage) VerifInPipe() int { return s.inPipe() }
